@@ -99,7 +99,7 @@ Enrich(r0) ==
        eff == [el \in els |-> EffRaw(r0, el)]
        E == r0.events
        I == DOMAIN E
-   IN [prog |-> r0.prog, cfg |-> r0.cfg, events |-> r0.events, end |-> r0.end,
+   IN [prog |-> r0.prog, cfg |-> r0.cfg, events |-> r0.events, end |-> r0.end, base |-> r0.base,
        x |-> [anc |-> anc, eff |-> eff,
               desc |-> [el \in els |-> {y \in els : el \in anc[y]}],
               match |-> [el \in els |-> EvalX(r0.cfg.nodes, r0.cfg.root, eff[el])],
@@ -294,6 +294,17 @@ C12(r) ==
          THEN {"C12.not_for_skipped"} ELSE {})
    \cup (IF r.cfg.dry /\ \E i \in Ix(r) : IsHook(Ev(r, i)) THEN {"C12.not_in_dry_run"} ELSE {})
 
+\* two-run clause: r.base = the fault-free run of the same program and configuration.  Every element outside the failing
+\* elements' own ancestry / descendants keeps the result it has without the fault.  Not asserted when either run was cut
+\* short (--stop, abort): there the statement only speaks about what lies before the cut.
+C12Pair(r) ==
+   IF ~Ran(r) \/ ~r.base.ran \/ r.cfg.stop \/ AbortSeen(r) \/ r.base.aborted THEN {}
+   ELSE LET H == {el \in Els(r) : OwnHookRaised(r, el)} \cup {sp[1] : sp \in r.x.shr}
+            aff == H \cup UNION {Anc(r, el) : el \in H} \cup UNION {Desc(r, el) : el \in H}
+        IN IF \E el \in Els(r) \ aff : \/ r.end.status[el] # r.base.status[el]
+                                        \/ (Kind(r, el) = "scenario" /\ r.end.step_status[el] # r.base.step_status[el])
+           THEN {"C12.others_unaffected"} ELSE {}
+
 \* ======================================================================= C13 (run part): scopes around feature / rule / scenario
 FeatOf(r, el) == CHOOSE f \in ({el} \cup Anc(r, el)) : Kind(r, f) = "feature"
 RuleOf(r, el) == IF Kind(r, el) = "rule" THEN el
@@ -368,7 +379,8 @@ C18Log(r) ==
    IF \E i, j \in hs : ~Ev(r, i).mine \/ Ev(r, i).lvl # Ev(r, j).lvl THEN {"C18.logging_restored"} ELSE {}
 C13r(r) == C13rVis(r) \cup C13rCl(r)
 ClausesX(r) == C01(r) \cup C02(r) \cup C03(r) \cup C09(r) \cup C12(r) \cup C13r(r) \cup C18(r) \cup C18Marks(r)
-Clauses(r0) == ClausesX(Enrich(r0)) \cup C18Log(r0)
+Clauses(r0) == LET r == Enrich(r0) IN ClausesX(r) \cup C12Pair(r) \cup C18Log(r0)
+PairClauses(r0) == C12Pair(Enrich(r0))
 \* on behaviours of the specification itself (no probes of the driver's context instrumentation)
 ClausesMCX(r) == C01(r) \cup C02(r) \cup C03(r) \cup C09(r) \cup C12(r) \cup C13rCl(r) \cup C18(r) \cup C18Marks(r)
 ClausesMC(r0) == ClausesMCX(Enrich(r0))
